@@ -221,6 +221,23 @@ mod sel {
         ran(&format!("hx_select_e2e::sel::refs::{}", T::TAG))
     }
 
+    // Renamed GENERIC functions: the `name = ".."` of a generic benchmark is
+    // carried by the group entry the macro makes for it.
+    #[divan::bench(types = [u8, u16], name = "renamed_ty")]
+    fn original_ty<T: 'static>() {
+        ran(&format!("hx_select_e2e::sel::renamed_ty::{}", std::any::type_name::<T>()))
+    }
+
+    #[divan::bench(consts = [3, 4], name = "renamed_const")]
+    fn original_const<const N: usize>() {
+        ran(&format!("hx_select_e2e::sel::renamed_const::{N}"))
+    }
+
+    #[divan::bench(types = [u8, i64], consts = [5, 6], name = "renamed_both")]
+    fn original_both<T: 'static, const N: usize>() {
+        ran(&format!("hx_select_e2e::sel::renamed_both::{}::{N}", std::any::type_name::<T>()))
+    }
+
     pub mod alpha {
         use super::ran;
 
